@@ -170,7 +170,7 @@ def c16c(ctx, tu):
                 # must be used only as the callee of an invocation
                 ok = False
                 for b, e in f.events():
-                    if lib.is_std_function_call(e) and lib.tree_name(e.get("recv")) == A[role]:
+                    if lib.is_std_function_call(e) and lib.tree_name(lib.resolve(f, e.get("recv"))) == A[role]:
                         ok = True
                 ctx.ob("C16.c", f.qe, ok, pattern=f.pat, unit=tu.name,
                        detail="" if ok else "sink does not invoke %s() at send time" % role)
@@ -190,12 +190,18 @@ def returns_previous(f, role):
     if len(rets) != 1:
         return False, "expected exactly one return"
     x = rets[0].get("x")
-    calls = lib.tree_calls(x)
+    calls = list(lib.tree_calls(x))
+    # ... also when the exchanged value is first held in a local that the return expression moves out
+    for t in lib.subtrees(x):
+        if isinstance(t, list) and t[:1] == ["var"]:
+            for b, d in f.events():
+                if d["e"] == "decl" and d.get("var") == t[1] and d.get("init") is not None:
+                    calls += list(lib.tree_calls(d["init"]))
     for c in calls:
         n = lib.tree_name(c)
         if n and n.endswith("::exchange"):
             args = c[3]
-            if args and lib.tree_name(args[0]) == A[role]:
+            if args and lib.tree_name(lib.resolve(f, args[0])) == A[role]:
                 # second argument must derive from a parameter
                 if "param" in str(args[1]):
                     return True, ""
